@@ -1,42 +1,166 @@
-"""C14 cases: float <-> integer casts (floats as bit patterns)."""
+"""C14 cases: float <-> integer casts (floats as bit patterns).
+
+Ops (harness/src/bin/c14.rs, lean/Bnum/Drive/C14.lean):
+  to_f32 / to_f64 / from_f32 / from_f64                 CastFrom::cast_from
+  as_to_f32 / as_to_f64 / as_from_f32 / as_from_f64     the same through As::as_ (about 40 % of the requests)
+  prim_to_f32 / ... / prim_from_f64                     rustc's native `as` on the primitive of that width
+  optional `dbg` / `rel` token after the configuration  answered by that build only
+
+Integer operands are built from their MAGNITUDE (the rounding code sees `unsigned_abs`), so that for signed
+configurations the designed classes (exact ties, sticky bits, the overflow threshold) hit negative values too.
+"""
 from .common import *
 from . import widthsweep as _ws
 
 HARNESS_BINS_THOROUGH = ["widths"]
-import struct
 
 FMT = {"f32": (24, 8, 32), "f64": (53, 11, 64)}
+EMAX = {"f32": 128, "f64": 1024}
+
+# wider than the standard lists: 1024 bits (= f64 MAX_EXP: all-ones rounds to +inf, 2^1023 saturates i1024),
+# 4096 bits, and the widest in-scope instantiation of every digit type (8192 bits: the only quick-tier widths
+# where an integer -> f64 cast can overflow)
+WIDE_CFGS = ["64x16", "64x64"] + HUGE_CFGS
 
 
-def int_case(rng, w, n, p):
+def _limits(W, signed):
+    """(bit length available to positive values, largest magnitude)"""
+    if signed:
+        return W - 1, 1 << (W - 1)
+    return W, (1 << W) - 1
+
+
+def _threshold(p, emax):
+    """the smallest integer that rounds (ties-to-even) to 2^emax, i.e. to infinity: MAX_FINITE + half an ulp"""
+    return (1 << emax) - (1 << (emax - p - 1))
+
+
+def _digit_edges(rng, w, n, lo, hi, k=4):
+    """bit positions at / next to digit boundaries inside [lo, hi] (a sample of k boundaries)"""
+    js = [j for j in range(1, n) if lo <= w * j <= hi]
+    if len(js) > k:
+        js = sorted(set([js[0], js[-1]] + rng.sample(js, k - 2)))
+    out = set()
+    for j in js:
+        for d in (-1, 0, 1):
+            if lo <= w * j + d <= hi:
+                out.add(w * j + d)
+    return sorted(out)
+
+
+def mag_case(rng, w, n, p, emax, signed):
+    """a magnitude from the classes the rounding code branches on (tag, magnitude); None = use a raw pattern"""
     W = w * n
-    M = 1 << W
-    c = rng.randrange(10)
+    Wm, maxmag = _limits(W, signed)
+    c = rng.randrange(16)
     if c == 0:
-        k = rng.randrange(W)
-        return "2^k", pat((1 << k) + rng.choice([-1, 0, 1]), W)
-    if c <= 3 and W > p:
-        # exact ties: kept mantissa q (p bits, even/odd), discarded part exactly half, +-1
-        s = rng.randrange(1, W - p + 1)
+        k = rng.randrange(Wm)
+        return "2^k", max(0, (1 << k) + rng.choice([-1, 0, 1]))
+    if c == 4:
+        return "fits-mantissa", rng.randrange(1 << min(p, Wm))
+    if c == 5:
+        T = _threshold(p, emax)
+        if T + 1 <= maxmag:
+            return "overflow-threshold", T + rng.choice([-1, 0, 1])
+        return "max-magnitude", maxmag - rng.choice([0, 0, 1])
+    if c in (1, 2, 3, 6, 7, 8, 9) and Wm > p:
+        # v = q * 2^s + low, q a full p-bit mantissa: `low` against half = 2^(s-1) decides the rounding
+        if c == 9:
+            s = Wm - p                                   # top binade: rounding up can carry out of the type's range
+        elif c == 8:
+            # the half bit (index s-1) at / next to a digit boundary: `value.bit(shift - 1)` index arithmetic
+            ed = _digit_edges(rng, w, n, 0, Wm - p - 1)
+            s = (rng.choice(ed) + 1) if ed else rng.randrange(1, Wm - p + 1)
+        else:
+            s = rng.randrange(1, Wm - p + 1)
         q = (1 << (p - 1)) | rng.randrange(1 << (p - 1))
         if rng.random() < 0.3:
-            q = (1 << p) - 1  # tie that carries into the exponent
-        if rng.random() < 0.5:
-            q &= ~1
+            q = (1 << p) - 1                             # rounding up carries into the exponent
+        q = (q & ~1) if rng.random() < 0.5 else (q | 1)
+        half = 1 << (s - 1)
+        if c == 6 and s >= 2:
+            # tie broken by ONE far-away low bit (trailing_zeros has to look across digits): rounds up
+            t = rng.choice([0, rng.randrange(s - 1), (s - 2) // w * w, max(0, (s - 2) // w * w - 1)])
+            return "tie+sticky-bit", (q << s) | half | (1 << min(t, s - 2))
+        if c == 7:
+            # just below half (all ones under the half bit) / a single low bit without the half bit: rounds down
+            low = rng.choice([half - 1, 1 << rng.randrange(s - 1) if s >= 2 else 0, half - 1])
+            return "below-half", (q << s) | low
+        v = (q << s) | half
+        if s > 1:
+            v += rng.choice([-1, 0, 0, 1])
+        return ("tie-top-binade" if c == 9 else "tie-digit-boundary" if c == 8 else "tie"), v
+    return None
+
+
+def int_case(rng, w, n, fmt, signed):
+    """(tag, W-bit pattern)"""
+    W = w * n
+    p = FMT[fmt][0]
+    r = mag_case(rng, w, n, p, EMAX[fmt], signed)
+    if r is None:
+        return value(rng, w, n)
+    t, m = r
+    Wm, maxmag = _limits(W, signed)
+    m = min(m, maxmag)
+    if not signed:
+        return t, m
+    if m > (1 << Wm) - 1 or rng.random() < 0.5:
+        return "neg-" + t, pat(-m, W)
+    return t, m
+
+
+def boundary_mags(rng, w, n, fmt, signed, dense=True, brief=False):
+    """deterministic magnitudes around every threshold of the integer -> float conversion
+    (dense=False: the reduced list for configurations wider than 1024 bits, where one request costs the Lean
+    model milliseconds; brief=True: the thresholds only)"""
+    W = w * n
+    p, emax = FMT[fmt][0], EMAX[fmt]
+    Wm, maxmag = _limits(W, signed)
+    T = _threshold(p, emax)
+    out = set()
+    if dense:
+        for base in (T, 1 << emax, (1 << emax) - (1 << (emax - p)), 1 << p, 1 << (p + 1), 1 << (p - 1),
+                     (1 << Wm) - 1, 1 << Wm, 1 << max(0, Wm - 1), 0):
+            for d in (-2, -1, 0, 1, 2, 3):
+                out.add(base + d)
+    else:
+        for base in (T, 1 << emax, (1 << emax) - (1 << (emax - p))):
+            for d in (-1, 0, 1):
+                out.add(base + d)
+        out |= {0, 1, (1 << p) + 1, (1 << Wm) - 1, 1 << Wm}
+    if Wm > p and not brief:
+        if dense:
+            ss = {1, 2, 3, Wm - p, Wm - p - 1, emax - p, emax - p - 1, emax - p + 1}
+            ss |= set(x + 1 for x in _digit_edges(rng, w, n, 0, Wm - p - 1, 4))
+            qs = [(1 << (p - 1)), (1 << (p - 1)) + 1, (1 << p) - 2, (1 << p) - 1,
+                  (1 << (p - 1)) | rng.randrange(1 << (p - 1)) | 1, ((1 << (p - 1)) | rng.randrange(1 << (p - 1))) & ~1]
+            lows = lambda half: (half, half - 1, half + 1, half | 1, 0, 1)
         else:
-            q |= 1
-        v = (q << s) | (1 << (s - 1))
-        v += rng.choice([-1, 0, 0, 1]) if s > 1 else 0
-        return "tie", v % M
-    if c == 4:
-        return "fits-mantissa", rng.randrange(1 << min(p, W))
-    if c == 5:
-        # near the float overflow threshold
-        emax = 128 if p == 24 else 1024
-        if W > emax:
-            return "overflow-threshold", ((1 << emax) - (1 << (emax - p - 1)) + rng.choice([-1, 0, 1])) % M
-        return "allones", M - 1
-    return value(rng, w, n)
+            # above 2^emax everything is infinite: keep the half bit inside the finite range (plus one far above)
+            ed = _digit_edges(rng, w, n, 0, min(Wm, emax) - p - 1, 3)
+            ss = {1, emax - p, emax - p + 1, Wm - p} | ({rng.choice(ed) + 1} if ed else set())
+            qs = [(1 << (p - 1)) + 1, (1 << p) - 2, (1 << p) - 1]
+            lows = lambda half: (half, half - 1, half | 1)
+        for s in ss:
+            if not 1 <= s <= Wm - p:
+                continue
+            half = 1 << (s - 1)
+            for q in qs:
+                for low in lows(half):
+                    out.add((q << s) | (low if low < (1 << s) else half))
+    return sorted(m for m in out if 0 <= m <= maxmag)
+
+
+def boundary_ints(rng, w, n, fmt, signed, dense=True, brief=False):
+    """patterns: every boundary magnitude with each sign that fits"""
+    W = w * n
+    Wm, _ = _limits(W, signed)
+    for m in boundary_mags(rng, w, n, fmt, signed, dense, brief):
+        if m <= (1 << Wm) - 1:
+            yield m
+        if signed and m:
+            yield pat(-m, W)
 
 
 def float_case(rng, fmt, W):
@@ -76,6 +200,48 @@ def float_case(rng, fmt, W):
         e = rng.randrange(1, (1 << eb) - 1)
         m = rng.randrange(1 << mb)
     return "f", (sign << (bits - 1)) | (e << mb) | m
+
+
+def boundary_floats(rng, fmt, w, n, dense=True, brief=False):
+    """deterministic float patterns around every threshold of the float -> integer conversion of a w x n target:
+    zeros, subnormals, one, the largest finite, infinities, NaNs (quiet / signalling / all-ones payload), and
+    2^k * {1, 1+ulp, 1.5, 2-ulp} for k at the type's bounds (W-1, W), at the mantissa width (where the
+    conversion switches from a right to a left shift) and at digit boundaries; both signs
+    (dense=False / brief=True: reduced lists for configurations wider than 1024 bits)"""
+    p, eb, bits = FMT[fmt]
+    W = w * n
+    mb = p - 1
+    bias = (1 << (eb - 1)) - 1
+    emaxf = (1 << eb) - 1
+    mags = set()
+    special = ((0, 0), (0, 1), (0, (1 << mb) - 1), (0, 1 << (mb - 1)), (1, 0), (1, 1),
+               (bias - 1, (1 << mb) - 1), (bias, 0), (bias, 1), (bias - 1, 0), (bias - 1, 1 << (mb - 1)),
+               (emaxf - 1, (1 << mb) - 1), (emaxf - 1, 0), (emaxf, 0),
+               (emaxf, 1), (emaxf, 1 << (mb - 1)), (emaxf, (1 << mb) - 1), (emaxf, (1 << (mb - 1)) - 1))
+    if not dense:
+        special = ((0, 0), (0, (1 << mb) - 1), (bias - 1, (1 << mb) - 1), (bias, 0), (bias, 1),
+                   (emaxf - 1, (1 << mb) - 1), (emaxf - 1, 0), (emaxf, 0), (emaxf, 1), (emaxf, 1 << (mb - 1)))
+    for e, m in special:
+        mags.add((e << mb) | m)
+    if dense:
+        ks = {W - 2, W - 1, W, W + 1, p - 3, p - 2, p - 1, p, p + 1, 0, 1, 2, w - 1, w, w + 1, emaxf - 1 - bias}
+        ks |= set(_digit_edges(rng, w, n, 1, min(W, bias), 4))
+        ms = lambda: (0, 1, 1 << (mb - 1), (1 << mb) - 1, rng.randrange(1 << mb))
+    elif brief:
+        ks = {p - 1, p, w, emaxf - 1 - bias}
+        ms = lambda: (0, (1 << mb) - 1)
+    else:
+        ks = {W - 1, W, p - 1, p, w - 1, w, w + 1, emaxf - 1 - bias, emaxf - 2 - bias}
+        ks |= set(_digit_edges(rng, w, n, 1, min(W, bias), 3))
+        ms = lambda: (0, (1 << mb) - 1, rng.randrange(1 << mb))
+    for k in ks:
+        e = k + bias
+        if 1 <= e <= emaxf - 1:
+            for m in ms():
+                mags.add((e << mb) | m)
+    for x in sorted(mags):
+        yield x
+        yield x | (1 << (bits - 1))
 
 
 def _fbits(fmt, x):
@@ -119,29 +285,119 @@ def exponent_sweep(rng, fmt, W):
             yield (sign << (bits - 1)) | (e << mb) | m
 
 
+# configurations whose width has a primitive integer type: the digit type / count only matter on the Lean side
+# (the harness answers `prim_*` with rustc's `as` on u8 ... i128)
+PRIM_CFGS = {8: ["8x1"], 16: ["16x1", "8x2"], 32: ["32x1", "16x2", "8x4"], 64: ["64x1", "32x2", "16x4", "8x8"],
+             128: ["64x2", "32x4", "16x8", "8x16"]}
+
+
+def _gen_prim(rng, tier):
+    """native `as` on primitives: the reference semantics, against the spec and the bnum model"""
+    reps = 400 if tier == "thorough" else 120
+    for W, names in PRIM_CFGS.items():
+        for s in "ui":
+            signed = s == "i"
+            for fmt in ("f32", "f64"):
+                def cfg():
+                    return s + rng.choice(names)
+                w0, n0 = wn(names[0])
+                for a in boundary_ints(rng, w0, n0, fmt, signed):
+                    yield f"prim_to_{fmt} {cfg()} {hx(a)}", "prim-float-boundary"
+                for f in boundary_floats(rng, fmt, w0, n0):
+                    yield f"prim_from_{fmt} {cfg()} {hx(f)}", "prim-float-boundary"
+                for f in bound_fractions(fmt, W):
+                    yield f"prim_from_{fmt} {cfg()} {hx(f)}", "prim-bound-fraction"
+                for f in exponent_sweep(rng, fmt, W):
+                    yield f"prim_from_{fmt} {cfg()} {hx(f)}", "prim-exponent-sweep"
+                for _ in range(reps):
+                    c = cfg()
+                    w, n = wn(c[1:])
+                    t, a = int_case(rng, w, n, fmt, signed)
+                    yield f"prim_to_{fmt} {c} {hx(a)}", "prim-" + t
+                    t, f = float_case(rng, fmt, W)
+                    yield f"prim_from_{fmt} {c} {hx(f)}", "prim-" + t
+
+
 def _gen_main(rng, tier):
-    for cfg in ["8x1", "16x1", "64x2", "8x17"] + (["32x3", "64x16"] if tier == "thorough" else []):
+    thorough = tier == "thorough"
+    for cfg in ["8x1", "16x1", "64x2", "8x17", "32x6", "64x16"] + (["32x3", "64x128"] if thorough else []):
         w, n = wn(cfg)
         for s in "ui":
             for fmt in ("f32", "f64"):
                 for f in exponent_sweep(rng, fmt, w * n):
                     yield f"from_{fmt} {s}{cfg} {hx(f)}", "exponent-sweep"
-    reps = 600 if tier == "thorough" else 300
-    for cfg in cfgs(tier):
+    reps = 600 if thorough else 300
+    wide_reps = 80 if thorough else 20
+    allcfgs = list(cfgs(tier)) + [c for c in WIDE_CFGS if c not in cfgs(tier)]
+    for cfg in allcfgs:
         w, n = wn(cfg)
         W = w * n
+        wide = W > 1024
+        # deterministic boundaries of both directions, every configuration, both signs.  Wider than 1024 bits the
+        # only finite/infinite boundary left is the one of f64, so f32 gets the thresholds only there.
+        for s in "ui":
+            for fmt in ("f32", "f64"):
+                brief = wide and fmt == "f32"
+                for a in boundary_ints(rng, w, n, fmt, s == "i", dense=not wide, brief=brief):
+                    yield f"to_{fmt} {s}{cfg} {hx(a)}", "float-boundary"
+                for f in boundary_floats(rng, fmt, w, n, dense=not wide, brief=brief):
+                    yield f"from_{fmt} {s}{cfg} {hx(f)}", "float-boundary"
         if W <= 64:
             for s in "ui":
                 for fmt in ("f32", "f64"):
                     for f in bound_fractions(fmt, W):
                         yield f"from_{fmt} {s}{cfg} {hx(f)}", "bound-fraction"
-        for _ in range(reps if n <= 40 else 15):
+        for _ in range(wide_reps if wide else reps):
             for s in "ui":
                 for fmt in ("f32", "f64"):
-                    t, a = int_case(rng, w, n, FMT[fmt][0])
+                    t, a = int_case(rng, w, n, fmt, s == "i")
                     yield f"to_{fmt} {s}{cfg} {hx(a)}", t
                     t, f = float_case(rng, fmt, W)
                     yield f"from_{fmt} {s}{cfg} {hx(f)}", t
+
+
+def _entry_points(rng, cases):
+    """about 40 % of the requests go through `As::as_` instead of `CastFrom::cast_from`; a few carry an explicit
+    build-mode token (answered by that build only; without a token the Lean side runs both model variants and
+    both builds answer).  Requests wider than 1024 bits always carry a token, alternating: one model variant per
+    request halves the cost of the list-based Lean model there."""
+    k = 0
+    for line, tag in cases:
+        if rng.random() < 0.4:
+            line = "as_" + line
+        op, cfg, rest = line.split(" ", 2)
+        w, n = wn(cfg[1:])
+        r = rng.random()
+        if w * n > 1024:
+            k += 1
+            line = f"{op} {cfg} {'dbg' if k % 2 else 'rel'} {rest}"
+        elif r < 0.06:
+            line = f"{op} {cfg} {'dbg' if r < 0.03 else 'rel'} {rest}"
+        yield line, tag
+
+
+def _sweep_to_f64(rng):
+    """thorough tier, every width 8 ... 8192 bits of the u8-digit type (harness bin `widths` knows unsigned
+    `to_f64` only): the overflow threshold, a tie in the top binade that carries out, a tie whose half bit sits on
+    a digit boundary, a tie broken by bit 0"""
+    p, emax = 53, 1024
+    T = _threshold(p, emax)
+    for n in _ws.ns(rng):
+        W = 8 * n
+        vals = set()
+        if T + 1 < (1 << W):
+            vals |= {T - 1, T, T + 1}
+        if W > p:
+            s = W - p
+            q = ((1 << p) - 1) if rng.random() < 0.5 else ((1 << (p - 1)) | rng.randrange(1 << (p - 1)))
+            half = 1 << (s - 1)
+            vals |= {(q << s) | half, ((q ^ 1) << s) | half, (q << s) | (half - 1), (q << s) | half | 1}
+            j = rng.randrange(1, n)
+            s2 = min(W - p, max(1, 8 * j + rng.choice([0, 1])))
+            q2 = (1 << (p - 1)) | rng.randrange(1 << (p - 1))
+            vals |= {(q2 << s2) | (1 << (s2 - 1)), ((q2 ^ 1) << s2) | (1 << (s2 - 1))}
+        for v in sorted(vals):
+            yield f"to_f64 u8x{n} {hx(v)}", "width-sweep"
 
 
 def ROUTE(line):
@@ -149,6 +405,8 @@ def ROUTE(line):
 
 
 def gen(rng, tier):
-    yield from _gen_main(rng, tier)
+    yield from _entry_points(rng, _gen_main(rng, tier))
+    yield from _gen_prim(rng, tier)
     if tier == "thorough":
         yield from _ws.to_f64(rng)
+        yield from _sweep_to_f64(rng)
